@@ -769,6 +769,27 @@ pub async fn run_server_opts(
     native_h1: bool,
     tls_info: bool,
 ) -> Result<(), hyperdriver::server::ServerError> {
+    run_server_held(acceptor, proto, tls, ctx, exec, shutdown, native_h1, tls_info, None).await
+}
+
+/// ((virtual ms, pumped ms) at completion, result) of a serving future that is kept alive.
+pub type HeldResult = Arc<Mutex<Option<((u64, u64), Result<(), String>)>>>;
+
+/// `held`: the serving future is not consumed: it is polled through a reference and, once it has
+/// completed, kept alive (this function then never returns; the outcome is left in the slot).
+#[allow(clippy::too_many_arguments)]
+pub async fn run_server_held(
+    acceptor: SimAcceptor,
+    proto: ServerProto,
+    tls: Option<Arc<rustls::ServerConfig>>,
+    ctx: HandlerCtx,
+    exec: SimExecutor,
+    shutdown: Option<tokio::sync::oneshot::Receiver<()>>,
+    native_h1: bool,
+    tls_info: bool,
+    held: Option<HeldResult>,
+) -> Result<(), hyperdriver::server::ServerError> {
+    let net_for_clock = ctx.net.clone();
     use hyperdriver::info::HasConnectionInfo;
     use hyperdriver::server::conn::Acceptor;
     let acc = Acceptor::new(acceptor);
@@ -798,6 +819,18 @@ pub async fn run_server_opts(
     // hyper's own builder option switches it off. Everything else is what with_auto_http() /
     // with_http1() / with_http2() would configure.
     use hyperdriver::bridge::rt::TokioExecutor;
+    macro_rules! drive {
+        ($f:expr) => {{
+            let mut fut = Box::pin($f);
+            let r = (&mut fut).await;
+            if let Some(slot) = &held {
+                *slot.lock() = Some(((net_for_clock.now_ms(), crate::net::pumped_ms()), r.as_ref().map(|_| ()).map_err(|e| e.to_string())));
+                std::future::pending::<()>().await;
+            }
+            drop(fut);
+            r
+        }};
+    }
     macro_rules! serve {
         ($b:expr) => {{
             let b = $b;
@@ -806,18 +839,18 @@ pub async fn run_server_opts(
                     let mut p = hyperdriver::server::AutoBuilder::new(TokioExecutor::new());
                     p.http1().auto_date_header(false);
                     p.http2().auto_date_header(false);
-                    b.with_protocol(p).with_executor(exec).with_graceful_shutdown(signal).await
+                    drive!(b.with_protocol(p).with_executor(exec).with_graceful_shutdown(signal))
                 }
-                ServerProto::H1 if native_h1 => b.with_http1().with_executor(exec).with_graceful_shutdown(signal).await,
+                ServerProto::H1 if native_h1 => drive!(b.with_http1().with_executor(exec).with_graceful_shutdown(signal)),
                 ServerProto::H1 => {
                     let mut p = hyperdriver::server::conn::http1::Builder::new();
                     p.auto_date_header(false);
-                    b.with_protocol(p).with_executor(exec).with_graceful_shutdown(signal).await
+                    drive!(b.with_protocol(p).with_executor(exec).with_graceful_shutdown(signal))
                 }
                 ServerProto::H2 => {
                     let mut p = hyperdriver::server::conn::http2::Builder::new(TokioExecutor::new());
                     p.auto_date_header(false);
-                    b.with_protocol(p).with_executor(exec).with_graceful_shutdown(signal).await
+                    drive!(b.with_protocol(p).with_executor(exec).with_graceful_shutdown(signal))
                 }
             }
         }};
